@@ -148,7 +148,8 @@ def history(ctx, k=3, first=None, hosts=None, names=("a", "b"), steps=None, fina
             sec = ctx.pick(f"sec{i}", A["secure"])
             ma = ctx.pick(f"ma{i}", A["maxage"])
             vcount[0] += 1
-            value = f"v{vcount[0]}"
+            # a later Set-Cookie may repeat an earlier value (re-sending an identical cookie)
+            value = "v1" if vcount[0] == 1 else ctx.pick(f"val{i}", [f"v{vcount[0]}", "v1"])
             hdr = f"{name}={value}"
             if dom is not None:
                 hdr += f"; Domain={dom}"
@@ -177,10 +178,14 @@ def history(ctx, k=3, first=None, hosts=None, names=("a", "b"), steps=None, fina
             ref.clear_domain(d)
             trace.append(("clear_domain", d))
         elif kind == "saveload":
-            p = _tmpfile()
-            jar.save(p)
-            jar = cj.CookieJar()
-            jar.load(p)
+            fd, p = tempfile.mkstemp(prefix="verif-c16-", dir="/var/tmp")
+            os.close(fd)
+            try:
+                jar.save(p)
+                jar = cj.CookieJar()
+                jar.load(p)
+            finally:
+                os.remove(p)
             trace.append(("saveload",))
         elif kind == "query":
             bad = do_query(i)
